@@ -13,7 +13,10 @@ RULE = ("byte strings through ComputeCRC: all strings of length 0..2 (65 793, co
         "sections are put through the receivers' CRC check; a case is "
         "non-trivial when it is a distinct request line (every byte string is inside the property's domain)")
 EXHAUSTIVE = True
-EXHAUSTIVE_NOTE = ("lengths 0..2 are enumerated completely on every run. Single-bit strings: quick = every bit position for "
+EXHAUSTIVE_NOTE = ("lengths 0..2 are enumerated completely on every run. Single-bit strings: the op crc.singles L compares ComputeCRC on ALL 8L "
+                   "single-bit strings of L bytes with the linear-time table Crc32.singles_fast (theorem C13_single_bit_all): thorough = every "
+                   "L in 0..1024, i.e. every single-bit string up to 1024 bytes (4 198 400 strings); quick = L in 0..64, 128, 183, 184, 188, 256, "
+                   "512, 1024 (28 752 strings). Additionally, string by string through the model of the code: quick = every bit position for "
                    "lengths 1..24, plus 64 positions per length class up to 1024; thorough = every bit position of every "
                    "length 1..128 and of the lengths 188, 256, 512, 1024 (so every distance-from-the-end 1..8192 occurs), "
                    "first/last/8 random positions for every other length up to 1024, and the all-zero string of every length "
@@ -201,6 +204,9 @@ def gen(rng, tier):
         for L in (32, 64, 128, 188, 256, 512, 1021, 1024):
             for p in sorted({0, 1, 7, 8, 8 * L - 9, 8 * L - 8, 8 * L - 1} | {rng.randrange(8 * L) for _ in range(57)}):
                 crc(single(L, p), "single-bit")
+    # 3a. ALL single-bit strings of a length in one call (model side: linear-time table proved in Proofs/CrcLinear.v)
+    for L in (range(0, 1025) if thorough else list(range(0, 65)) + [128, 183, 184, 188, 256, 512, 1024]):
+        out.append(Case("crc.singles %d" % L, kind="single-bit-all", theorem="C13_single_bit_all"))
     # 3b. every length 0..1024 at least once with random content (section sizes), and a few long strings beyond 4 KiB
     for L in range(0, 1025):
         crc(bytes(rng.randrange(256) for _ in range(L)), "every-length")
@@ -246,6 +252,16 @@ def oracle(c, real, model):
     """the property fixes the reply completely, so the real reply is also checked against the table-driven CRC"""
     if c.kind == "coqchk-audit":
         return "coqchk does not confirm the proofs of Properties/C13.v as axiom-free: " + AUDIT.get("text", "")
+    if c.kind == "single-bit-all":
+        L = int(c.line.split(" ")[1])
+        if L > 48:
+            return None                      # real is compared with the (proved) linear-time table of the model
+        want = "x" + "".join("%08x" % table_crc(single(L, p)) for p in range(8 * L))
+        if real != want:
+            return "ComputeCRC on the single-bit strings of %d bytes differs from the table-driven reference" % L
+        if model != want:
+            return "Crc32.singles_fast %d differs from the table-driven reference" % L
+        return ""
     if c.kind.startswith("emit-"):
         try:
             return residue_check(c, real)
@@ -267,6 +283,12 @@ def oracle(c, real, model):
 def shrink(c):
     if c.kind.startswith("emit-"):
         return
+    if c.kind == "single-bit-all":
+        L = int(c.line.split(" ")[1])
+        for L2 in (1, L // 2, L - 1):
+            if 0 < L2 < L:
+                yield Case("crc.singles %d" % L2, kind=c.kind, theorem=c.theorem)
+        return
     op, _, arg = c.line.partition(" ")
     b = unhx(arg.strip())
     n = len(b)
@@ -283,6 +305,8 @@ def shrink(c):
 
 def case_of_line(line, kind):
     op = line.split(" ")[0]
+    if op == "crc.singles":
+        return Case(line, kind="single-bit-all", theorem="C13_single_bit_all")
     if op == "crc.emit.pmt":
         return Case(line, kind="emit-filtered-pmt", theorem="C13_emitted_section_residue_ok")
     if op == "crc.emit.scte":
